@@ -195,7 +195,12 @@ func legacyOpenIn(g *gwInstance, id string, hdr map[string]string) (net.Conn, *b
 // legacyDial opens the OUT then the IN connection and sends the throw-away
 // preamble the gateway drains.
 func legacyDial(g *gwInstance, id string, hdr map[string]string) (*legacyConn, error) {
-	out, outBr, st, err := legacyOpenOut(g, id, hdr)
+	return legacyDial2(g, id, hdr, hdr)
+}
+
+// legacyDial2 opens the two requests of a legacy tunnel with separate headers.
+func legacyDial2(g *gwInstance, id string, hdrOut, hdr map[string]string) (*legacyConn, error) {
+	out, outBr, st, err := legacyOpenOut(g, id, hdrOut)
 	if err != nil || st != 200 {
 		return nil, fmt.Errorf("legacy OUT: status %d err %v", st, err)
 	}
